@@ -102,7 +102,11 @@ def sample_consts(name, rng, yield_strain=None):
         mu = float(loguniform(rng, 1e-3, 1e6))
         return [mu * float(loguniform(rng, 0.7, 60.0)), mu, float(loguniform(rng, 3.0, 200.0))]
     if fam == "PhaseFieldThreshold":
-        return [float(loguniform(rng, 1e-3, 1e6)), _nu(rng, 0.0), float(loguniform(rng, 1e-3, 1e3)), float(loguniform(rng, 1e-3, 10.0))]
+        # Gc/l (the scale of the phase potential, a deformation-independent offset of the energy) is kept within 1e-3..1 of E so that
+        # the offset does not swamp the strain energy in finite-difference and invariance comparisons
+        E = float(loguniform(rng, 1e-3, 1e6))
+        ell = float(loguniform(rng, 1e-3, 1.0))
+        return [E, _nu(rng, 0.0), E * ell * float(loguniform(rng, 1e-3, 1.0)), ell]
     if fam in ("HyperViscoelastic", "MultiBranchHyperViscoelastic"):
         G = float(loguniform(rng, 1e-2, 1e4))
         out = [G * float(loguniform(rng, 0.7, 100.0)), G]
@@ -300,8 +304,10 @@ def spectral_stretch(cls, rng, dev_norm, vol=0.0, gap=None):
     t = dev_norm / math.sqrt(6.0) * _sgn(rng)
     logs = onp.array([t, t, -2.0 * t]) + vol / 3.0
     if gap is not None and gap > 0:
-        # lambda_2^2 = lambda_1^2 (1 + gap)
-        logs = logs + onp.array([0.0, 0.5 * math.log1p(gap), 0.0])
+        # split the pair so that (c2 - c1)/max(c) = gap for the squared stretches c (the eigenvalues the eigen-solver sees)
+        c = onp.exp(2.0 * logs)
+        c1 = c[0] / (1.0 - gap) if c[0] >= c[2] else c[0] + gap * c[2]
+        logs = onp.array([logs[0], 0.5 * math.log(c1), logs[2]])
     perm = [[0, 1, 2], [2, 0, 1], [0, 2, 1]][int(rng.integers(3))]
     if cls == "pair_axis":
         lam = onp.exp(logs)[perm]
